@@ -1,13 +1,347 @@
-"""Replay files and witness search."""
+"""Replay files and witness search.
+
+A witness search is run ONLY after a verifier has refuted (or, for the portfolio
+time-out case, failed to discharge) an obligation that is discharged on the
+unchanged tree.  It concretises the failure into a call of the public API of the
+real crate, which `./check replay <file>` re-executes.  It never decides anything
+by itself.
+"""
 import hashlib
+import itertools
 import json
 import os
+import random
+import subprocess
+import time
+
+import isoref
 
 
-def write_replay(verif, repo, pid, r, f):
+def replay_bin(verif):
+    """Build (incrementally) the replay tool against /repo's working tree."""
+    tgt = os.path.join(verif, 'work', 'replay-target')
+    os.makedirs(tgt, exist_ok=True)
+    env = dict(os.environ)
+    env['CARGO_TARGET_DIR'] = tgt
+    env['CARGO_NET_OFFLINE'] = 'true'
+    p = subprocess.run(['cargo', 'build', '--offline', '--quiet'], cwd=os.path.join(verif, 'replay'), env=env,
+                       stdout=subprocess.PIPE, stderr=subprocess.STDOUT, text=True, timeout=600)
+    b = os.path.join(tgt, 'debug', 'dmreplay')
+    if p.returncode != 0 or not os.path.exists(b):
+        return None
+    return b
+
+
+def run_lines(binary, lines, timeout=120):
+    p = subprocess.run([binary], input='\n'.join(lines) + '\n', stdout=subprocess.PIPE, stderr=subprocess.DEVNULL, text=True, timeout=timeout)
+    out = p.stdout.split('\n')
+    return out[:len(lines)]
+
+
+def hx(b):
+    return bytes(b).hex() if len(b) else '-'
+
+
+# ---------------------------------------------------------------------------------------------
+# candidate generators
+# ---------------------------------------------------------------------------------------------
+BOUND = [0, 1, 2, 3, 31, 32, 39, 40, 47, 48, 57, 64, 65, 90, 91, 96, 127, 128, 129, 130, 229, 230, 231, 232, 235, 236, 238, 239, 240, 241, 242, 253, 254, 255]
+
+
+def pads(prefix_len, n):
+    return [129] + [isoref.rand253_pad(prefix_len + 2 + i) for i in range(n - 1)] if n > 0 else []
+
+
+def dec_candidates(rng):
+    # all streams of length <= 2
+    for a in range(256):
+        yield [a]
+    for a in range(256):
+        for b in range(256):
+            yield [a, b]
+    # latch + pair, all pairs
+    for latch in (230, 239, 238, 240, 231):
+        for a in range(256):
+            for b in BOUND:
+                yield [latch, a, b]
+                yield [latch, b, a]
+    # latch + two pairs / mixed tails over the boundary alphabet
+    small = [0, 1, 2, 40, 91, 124, 125, 128, 200, 254, 255]
+    for latch in (230, 239, 238, 240):
+        for t in itertools.product(small, repeat=4):
+            yield [latch] + list(t)
+        for t in itertools.product(small, repeat=3):
+            yield [latch] + list(t) + [254, 66]
+            yield [latch] + list(t) + [66]
+    # C40/Text value-level: every value triple with shifts, followed by unlatch + ASCII
+    for latch in (230, 239):
+        for c1 in range(40):
+            for c2 in (0, 1, 2, 3, 14, 30, 31, 39):
+                for c3 in (0, 1, 2, 3, 27, 30, 39):
+                    v = 1600 * c1 + 40 * c2 + c3 + 1
+                    for c4 in (5, 14, 30, 31):
+                        w = 1600 * c4 + 40 * 3 + 3 + 1
+                        yield [latch, v >> 8, v & 255, w >> 8, w & 255, 254, 66]
+    # X12 all value triples
+    for c1 in range(40):
+        for c2 in (0, 1, 2, 3, 4, 13, 14, 39):
+            v = 1600 * c1 + 40 * c2 + 3 + 1
+            yield [238, v >> 8, v & 255]
+            yield [238, v >> 8, v & 255, 254, 66, 129]
+    # EDIFACT: all first bytes x boundary followers
+    for a in range(256):
+        for b in (0, 31, 64, 124, 125, 127, 240, 255):
+            for c in (0, 31, 95, 124, 192, 223, 255):
+                yield [240, a, b, c]
+                yield [240, a, b, c, 66]
+                yield [240, a, b, c, 16, 21, 1]
+    # Base256 with boundary lengths
+    for n in (0, 1, 2, 3, 248, 249, 250, 251, 252, 499, 500, 501, 1000, 1554, 1555):
+        for short in (0, 1):
+            for explicit in (True, False):
+                body = [rng.randrange(256) for _ in range(n)]
+                cw = [231]
+                if not explicit:
+                    cw.append(isoref.rand255(0, 2))
+                elif n <= 249:
+                    if n == 0:
+                        continue
+                    cw.append(isoref.rand255(n, 2))
+                else:
+                    cw.append(isoref.rand255(n // 250 + 249, 2))
+                    cw.append(isoref.rand255(n % 250, 3))
+                p0 = len(cw)
+                m = n - short
+                cw += [isoref.rand255(body[i], p0 + 1 + i) for i in range(max(m, 0))]
+                yield cw
+                if explicit and not short:
+                    yield cw + [66, 67]
+                    yield cw + [129] + [isoref.rand253_pad(len(cw) + 2 + i) for i in range(3)]
+    # ASCII: upper shift, digit pairs, pads (right and wrong), ECI designators, macro, FNC1
+    for a in BOUND:
+        for b in BOUND:
+            yield [235, a, b]
+            yield [66, 235, a, b]
+            yield [236, a, b]
+            yield [237, a, b]
+            yield [232, a, b]
+            yield [236, 232, a, b]
+            yield [a, 129, b]
+            yield [a, b, 129] + [isoref.rand253_pad(4 + i) for i in range(3)]
+            yield [a, b, 129] + [isoref.rand253_pad(4 + i) for i in range(2)] + [rng.randrange(1, 255)]
+    for a in range(256):
+        for b in (0, 1, 2, 127, 128, 253, 254, 255):
+            for c in (0, 1, 2, 254, 255):
+                yield [241, a, b, c, 66]
+                yield [66, 241, a, b, c]
+
+
+def dec_search(binary, budget_s, strdec=False):
+    """first stream where the reference accepts and the code disagrees (wrong bytes, error or panic),
+    or where the code panics at all"""
+    rng = random.Random(1)
+    t0 = time.time()
+    batch = []
+    op = 'decode_str' if strdec else 'decode_data'
+    for cw in dec_candidates(rng):
+        batch.append(cw)
+        if len(batch) >= 20000:
+            w = _dec_batch(binary, batch, op)
+            if w:
+                return w
+            batch = []
+            if time.time() - t0 > budget_s:
+                return None
+    return _dec_batch(binary, batch, op) if batch else None
+
+
+def _dec_batch(binary, batch, op):
+    res = run_lines(binary, ['%s %s' % (op, hx(cw)) for cw in batch])
+    for cw, r in zip(batch, res):
+        ref = isoref.iso_decode(cw)
+        if r.startswith('panic'):
+            return {'call': '%s %s' % (op, hx(cw)), 'observed': r, 'expected': 'a value or an error (never a panic)' if ref is None else 'ok ' + hx(ref[0])}
+        if ref is None or op != 'decode_data':
+            continue
+        if ref[1]:
+            if not r.startswith('err ECICode'):
+                return {'call': '%s %s' % (op, hx(cw)), 'observed': r, 'expected': 'err ECICode (stream carries an ECI designator)'}
+            continue
+        want = 'ok ' + (ref[0].hex() if ref[0] else '')
+        got = r.strip()
+        if got != want.strip():
+            return {'call': '%s %s' % (op, hx(cw)), 'observed': r, 'expected': want + '   (ISO/IEC 16022 reference decoder lib/isoref.py)'}
+    return None
+
+
+# ---------------------------------------------------------------------------------------------
+def rt_inputs(rng):
+    H5, H6, T = isoref.HEAD05, isoref.HEAD06, isoref.TRAIL
+    bodies = [b'', b'A', b'AB', b'01', b'1234', b'12345', b'A1B2C3', b'AAAAAAAAAA', b'aaaaaaaaaa', b'.........', b'AAAAAAAA12', b'ABCDEFGH12345678',
+              b'A' * 13, b'A' * 10, b'A' * 17, b'\xfaaaa', b'AB\rCDE', b'AB\r>ABC123>AB', b'\x85AB', bytes(range(128, 140)), b'*****', b'Hello, World!',
+              b'\xab\xe4\xf6\xfc\xe9\xbb', b'AIMAIMAIM', b'aimaimaim', b'ab*de', b'A*B>C D', b'....', b'12*45', b'\x00\x01\x02', b'\x7f\x80\xff']
+    for b in bodies:
+        yield b
+        for h in (H5, H6):
+            yield h + b + T
+            yield h + b
+            yield b + T
+            yield h + b + T + T
+    yield H5
+    yield H6
+    yield T
+    for n in (1, 2, 3, 4, 5, 7, 8, 9, 11, 20, 43, 44, 45, 100, 249, 250, 251):
+        yield bytes(rng.randrange(256) for _ in range(n))
+        yield bytes(rng.choice(b'0123456789') for _ in range(n))
+        yield bytes(rng.choice(b'ABCDEFGHIJKLMNOPQRSTUVWXYZ 0123456789') for _ in range(n))
+        yield bytes(rng.choice(b'abcdefghijklmnopqrstuvwxyz 0123456789') for _ in range(n))
+        yield bytes(rng.choice(b'ABC*> \r0123456789') for _ in range(n))
+        yield bytes(rng.choice(bytes(range(32, 95))) for _ in range(n))
+
+
+# mode sets without ASCII are left out: the planner/encoder coupling with ASCII disabled is outside the
+# reach of the contracts (DESIGN.md section 7, C18) and has known defects that would be mistaken for witnesses
+MODESETS = ['all', 'Ascii', 'Ascii,C40', 'Ascii,Text', 'Ascii,X12', 'Ascii,Edifact', 'Ascii,Base256', 'Ascii,C40,Text,X12', 'Ascii,Edifact,Base256']
+SYMSETS = ['default', 'all', 'Square10,Square12', 'Rect8x18,Rect8x32,Rect12x26', 'Square144', 'Rect26x40,Rect22x48', 'Square24,Rect8x64,Square22']
+
+
+def rt_search(binary, budget_s):
+    """encode -> (data codewords -> decode_data, bitmap -> DataMatrix::decode) must give the input back,
+    and the reference decoder must read the data codewords as the input; encoding must not panic"""
+    rng = random.Random(2)
+    t0 = time.time()
+    lines = []
+    meta = []
+    for data in rt_inputs(rng):
+        for ms in MODESETS:
+            for sy in (SYMSETS if len(data) < 30 else SYMSETS[:2]):
+                for mac in ('1', '0'):
+                    for fnc in ('0', '1'):
+                        lines.append('rt %s %s %s %s %s' % (sy, ms, mac, fnc, hx(data)))
+                        meta.append((data, ms, sy, mac, fnc))
+        if len(lines) > 6000:
+            w = _rt_batch(binary, lines, meta)
+            if w:
+                return w
+            lines, meta = [], []
+            if time.time() - t0 > budget_s:
+                return None
+    return _rt_batch(binary, lines, meta) if lines else None
+
+
+def _rt_batch(binary, lines, meta):
+    res = run_lines(binary, lines, timeout=300)
+    for l, (data, ms, sy, mac, fnc), r in zip(lines, meta, res):
+        if r.startswith('panic'):
+            return {'call': l, 'observed': r, 'expected': 'a value or an error (never a panic)'}
+        if r.startswith('err'):
+            continue
+        parts = r.split()
+        want = 'ok:' + data.hex()
+        d = [p for p in parts if p.startswith('data=')][0][5:]
+        px = [p for p in parts if p.startswith('pixels=')][0][7:]
+        if d != want or px != want:
+            return {'call': l, 'observed': r, 'expected': 'data=%s pixels=%s (the encoded bytes)' % (want, want)}
+        cw = bytes.fromhex(parts[2]) if parts[2] != '-' else b''
+        ref = isoref.iso_decode(cw)
+        if ref is None or ref[0] != data:
+            return {'call': l, 'observed': r, 'expected': 'data codewords that the ISO/IEC 16022 reference decoder (lib/isoref.py) reads as the input; it reads %s' % (ref[0].hex() if ref else 'nothing (rejects the stream)')}
+        # macro / FNC1 shape (C16)
+        H5, H6, T = isoref.HEAD05, isoref.HEAD06, isoref.TRAIL
+        env = data.endswith(T) and (data.startswith(H5) or data.startswith(H6)) and len(data) >= 9
+        want_macro = mac == '1' and fnc == '0' and env
+        has_macro = cw[:1] in (b'\xec', b'\xed')
+        if want_macro != has_macro:
+            return {'call': l, 'observed': r, 'expected': 'macro codeword in first position exactly for a complete envelope with macros on and no FNC1 start (here: %s)' % want_macro}
+        if fnc == '1' and cw[:1] != b'\xe8':
+            return {'call': l, 'observed': r, 'expected': 'first codeword 232 (FNC1 start)'}
+    return None
+
+
+def eci_search(binary, budget_s):
+    """decode_str of ECI designator + Base256/ASCII carried bytes against Python's own ISO-8859 tables"""
+    lines = []
+    meta = []
+    for eci, codec in ((3, 'latin-1'), (11, 'iso8859-9'), (13, 'iso8859-11'), (27, 'ascii'), (26, 'utf-8')):
+        for b in range(256):
+            for tail in (b'', b'A'):
+                raw = bytes([b]) + tail
+                cw = [241, eci + 1]
+                for x in raw:
+                    cw += [x + 1] if x < 128 else [235, x - 127]
+                lines.append('decode_str ' + hx(cw))
+                meta.append((eci, codec, raw))
+    res = run_lines(binary, lines)
+    for l, (eci, codec, raw), r in zip(lines, meta, res):
+        if r.startswith('panic'):
+            return {'call': l, 'observed': r, 'expected': 'a value or an error (never a panic)'}
+        printable = all((0x20 <= x <= 0x7e) or x >= 0xa0 for x in raw) if eci in (3, 11, 13) else True
+        try:
+            want = raw.decode(codec) if printable else None
+        except Exception:
+            want = None
+        if want is None:
+            if not r.startswith('err'):
+                return {'call': l, 'observed': r, 'expected': 'err CharsetError (byte not defined/printable in the character set of ECI %d)' % eci}
+        else:
+            if r.strip() != ('ok ' + want.encode('utf-8').hex()).strip():
+                return {'call': l, 'observed': r, 'expected': 'ok %s (%r per Python codec %s)' % (want.encode('utf-8').hex(), want, codec)}
+    return None
+
+
+SEARCH = {
+    'V-DEC': [('dec', 60)],
+    'V-ECI': [('eci', 30), ('dec_str', 30)],
+    'V-ENC': [('rt', 90)],
+    'V-ASCII': [('rt', 90)],
+    'V-X12': [('rt', 90)],
+    'V-B256': [('rt', 90)],
+    'V-DRV': [('rt', 90)],
+}
+
+
+def find_witness(verif, unit):
+    plan = SEARCH.get(unit)
+    if not plan:
+        return None
+    b = replay_bin(verif)
+    if b is None:
+        return None
+    for kind, budget in plan:
+        try:
+            if kind == 'dec':
+                w = dec_search(b, budget)
+            elif kind == 'dec_str':
+                w = dec_search(b, budget, strdec=True)
+            elif kind == 'rt':
+                w = rt_search(b, budget)
+            elif kind == 'eci':
+                w = eci_search(b, budget)
+            else:
+                w = None
+        except Exception as e:   # a crashed search is not a verdict
+            w = None
+        if w:
+            w['search'] = kind
+            return w
+    return None
+
+
+def write_replay(verif, repo, pid, r, f, search=True):
     os.makedirs(os.path.join(verif, 'work', 'replays'), exist_ok=True)
     h = hashlib.sha1((f['obligation'] + f.get('detail', '')).encode()).hexdigest()[:10]
     path = os.path.join(verif, 'work', 'replays', '%s-%s-%s.json' % (pid, r.name, h))
+    witness = None
+    if f.get('playback'):
+        witness = {'kind': 'kani-concrete-playback', 'harness': f.get('harness'), 'values': f['playback'],
+                   'how': 'concrete values for the kani::any() calls of the harness, in order (cargo kani --concrete-playback=print)'}
+    elif search:
+        if not hasattr(r, '_witness_cache'):
+            r._witness_cache = find_witness(verif, r.name)
+        if r._witness_cache:
+            witness = dict(r._witness_cache)
+            witness['kind'] = 'public-api-call'
+            witness['how'] = 'line for the replay tool (replay/): ./check replay <this file>'
     doc = {
         'property': pid,
         'unit': r.name,
@@ -17,13 +351,13 @@ def write_replay(verif, repo, pid, r, f):
         'verifier_message': f['message'],
         'verifier_output': f.get('rendered', ''),
         'source': f.get('src'),
-        'witness': None,
-        'how_to_replay': './check replay <this file>',
+        'witness': witness,
+        'note': getattr(r, 'reason', ''),
+        'how_to_replay': './check replay ' + path,
     }
-    found = False
     with open(path, 'w') as fh:
         json.dump(doc, fh, indent=1)
-    return path, found
+    return path, witness is not None
 
 
 def replay_file(verif, repo, path):
@@ -33,7 +367,20 @@ def replay_file(verif, repo, path):
     print('detail     :', doc.get('detail'))
     print('source     :', doc.get('source'))
     print(doc.get('verifier_output', ''))
-    if not doc.get('witness'):
+    w = doc.get('witness')
+    if not w:
         print('no concrete witness recorded (no-failing-input-found)')
         return 0
+    if w.get('kind') == 'public-api-call':
+        b = replay_bin(verif)
+        if b is None:
+            print('replay tool does not build against /repo')
+            return 2
+        out = run_lines(b, [w['call']])
+        print('call       :', w['call'])
+        print('now        :', out[0])
+        print('recorded   :', w['observed'])
+        print('expected   :', w['expected'])
+        return 0
+    print('witness    :', json.dumps(w, indent=1))
     return 0
